@@ -23,7 +23,6 @@ use grin_core::pow::{self, Difficulty};
 use grin_core::ser::{self, DeserializationMode, ProtocolVersion};
 use serde_json::{json, Value};
 use std::collections::{BTreeMap, HashMap};
-use std::sync::atomic::{AtomicU64, Ordering};
 use std::sync::Mutex;
 use std::time::{Duration as StdDuration, Instant};
 use vcommon::ledger::RefLedger;
@@ -1302,6 +1301,74 @@ fn part_a_chain(
 	}
 }
 
+const FIELDS: [&str; 12] = [
+	"height", "timestamp", "version", "prev_hash", "prev_root", "total_difficulty",
+	"secondary_scaling", "nonce", "edge_bits", "proof", "output_mmr_size", "kernel_mmr_size",
+];
+
+fn rejected_key(field: &str, entry: &str) -> String {
+	format!("partA_rejected[{} @ {}]", field, entry)
+}
+
+/// Chains `shard, shard+n, ..` of part A, run sequentially in this process;
+/// the tallies are published as counters (merged by the parent).
+fn part_a_shard(run: &Run, shard: usize, n_shards: usize, san: bool) {
+	let (n_chains, stride, budget_s): (usize, usize, u64) = if san {
+		(1, 6, 120)
+	} else {
+		run.tier.pick((16, 1, 45), (320, 1, 420))
+	};
+	let tally = Mutex::new(ATally::default());
+	let sc = Scratch::new("c04");
+	let deadline = Instant::now() + StdDuration::from_secs(budget_s);
+	let mut ci = shard;
+	while ci < n_chains {
+		if Instant::now() > deadline {
+			run.count("partA_chains_skipped_deadline", 1);
+			ci += n_shards;
+			continue;
+		}
+		// 16..20 blocks: versions 1..4 (DMA) at heights 1..11, version 5 (WTEMA) from 12
+		let n_blocks = if san { 13 } else { 16 + (ci as u64 % 5) };
+		let r = monitor::catch(|| part_a_chain(run, &tally, &sc, ci, n_blocks, stride, deadline));
+		if let Err(p) = r {
+			run.inconclusive(&format!("part A chain {} harness panic: {} @ {}", ci, p.message, p.location));
+		}
+		run.count("partA_chains", 1);
+		ci += n_shards;
+	}
+	drop(sc);
+	let t = tally.lock().unwrap();
+	run.count("partA_deliveries", t.deliveries);
+	run.count("partA_rejected_for_the_targeted_rule", t.expected_reason);
+	run.count("partA_rejected_for_another_reason", t.other_reason.values().sum());
+	run.count("partA_mutants_not_minable_skipped", t.mine_failed);
+	run.count("partA_pow_mutants_dropped_because_still_a_valid_cycle", t.accidentally_valid_pow);
+	run.count("partA_honest_difficulty_equals_reference", t.ref_difficulty_ok);
+	run.count("partA_ftl_cases_judged", t.ftl_judged);
+	run.count("partA_ftl_cases_skipped_timing", t.ftl_timing_skipped);
+	run.count("partA_same_hash_mutant_vs_known_header_checks", t.post_known_checks);
+	run.count("partA_valid_cycle_below_target_rejected", t.weak_proof_rejected);
+	for (e, n) in &t.honest_ok {
+		run.count(&format!("partA_honest_accepted[{}]", e), *n);
+	}
+	for (e, n) in &t.valid_mutant_ok {
+		run.count(&format!("partA_valid_mutant_accepted[{}]", e), *n);
+	}
+	for (v, n) in &t.eras_seen {
+		run.count(&format!("partA_heights_in_era_v{}", v), *n);
+	}
+	for ((f, e), n) in &t.rejected {
+		run.count(&rejected_key(f, e), *n);
+	}
+	for (k, n) in &t.other_reason {
+		run.count(&format!("partA_rejected_for_another_reason[{}]", k), *n);
+	}
+	for (d, n) in &t.difficulties_seen {
+		run.count(&format!("partA_network_difficulty_seen[{:04}]", d), *n);
+	}
+}
+
 // =====================================================================
 // Part B
 // =====================================================================
@@ -1924,6 +1991,10 @@ fn main() {
 	init_globals(false);
 	monitor::install_panic_hook();
 	let t_start = Instant::now();
+	if let Some((i, n)) = run.worker_shard() {
+		part_a_shard(&run, i, n, false);
+		run.finish_worker();
+	}
 
 	run.set_rule(
 		"Part A: honest real-PoW AutomatedTesting chains (Cuckatoo10, versions 1..5, 5 timestamp profiles) built by the reference \
@@ -1946,38 +2017,20 @@ fn main() {
 	run.assume("mainnet/testnet header ACCEPTANCE is not exercised (Cuckatoo31+/Cuckaroo29 cannot be mined here); their retarget, schedule and minima are covered by part B");
 
 	// ------------------------------------------------------------ Part A
-	let (n_chains, threads_a, stride, a_budget_s): (usize, usize, usize, u64) = if san {
-		(1, 1, 6, 120)
+	// process_block serialises on the process-global secp mutex, so the chains are
+	// sharded over worker PROCESSES (see part_a_shard); sanitizer runs stay in-process.
+	if san {
+		part_a_shard(&run, 0, 1, true);
 	} else {
-		run.tier.pick((10, 10, 1, 50), (60, 15, 1, 400))
-	};
-	let tally = Mutex::new(ATally::default());
-	let sc = Scratch::new("c04");
-	let next = AtomicU64::new(0);
-	let deadline_a = t_start + StdDuration::from_secs(a_budget_s);
-	std::thread::scope(|s| {
-		for _ in 0..threads_a {
-			s.spawn(|| loop {
-				let ci = next.fetch_add(1, Ordering::SeqCst) as usize;
-				if ci >= n_chains || Instant::now() > deadline_a {
-					break;
-				}
-				// 16..20 blocks: versions 1..4 (DMA) at heights 1..11, version 5 (WTEMA) from 12
-				let n_blocks = if san { 13 } else { 16 + (ci as u64 % 5) };
-				let r = monitor::catch(|| part_a_chain(&run, &tally, &sc, ci, n_blocks, stride, deadline_a));
-				if let Err(p) = r {
-					run.inconclusive(&format!("part A chain {} harness panic: {} @ {}", ci, p.message, p.location));
-				}
-			});
-		}
-	});
+		run.spawn_workers(16, &[], run.tier.pick(60, 480));
+	}
 	let a_wall = t_start.elapsed().as_secs_f64();
 
 	// ------------------------------------------------------------ Part B
 	check_reference_constants(&run);
-	let total_b: u64 = if san { 20_000 } else { run.tier.pick(1_600_000, 24_000_000) };
+	let total_b: u64 = if san { 20_000 } else { run.tier.pick(1_600_000, 48_000_000) };
 	let threads_b: u64 = if san { 2 } else { 16 };
-	let deadline_b = Instant::now() + StdDuration::from_secs(if san { 60 } else { run.tier.pick(25, 240) });
+	let deadline_b = Instant::now() + StdDuration::from_secs(if san { 60 } else { run.tier.pick(20, 240) });
 	let seed = run.seed;
 	let canonical = part_b_canonical();
 	let mut stats: Vec<BStats> = std::thread::scope(|s| {
@@ -1990,50 +2043,18 @@ fn main() {
 	let b_wall = t_start.elapsed().as_secs_f64() - a_wall;
 
 	// ------------------------------------------------------------ evidence
-	let t = tally.lock().unwrap();
-	run.count("partA_deliveries", t.deliveries);
-	run.count("partA_rejected_for_the_targeted_rule", t.expected_reason);
-	run.count("partA_rejected_for_another_reason", t.other_reason.values().sum());
-	run.count("partA_mutants_not_minable_skipped", t.mine_failed);
-	run.count("partA_pow_mutants_dropped_because_still_a_valid_cycle", t.accidentally_valid_pow);
-	run.count("partA_honest_difficulty_equals_reference", t.ref_difficulty_ok);
-	run.count("partA_ftl_cases_judged", t.ftl_judged);
-	run.count("partA_ftl_cases_skipped_timing", t.ftl_timing_skipped);
-	run.count("partA_same_hash_mutant_vs_known_header_checks", t.post_known_checks);
-	run.count("partA_valid_cycle_below_target_rejected", t.weak_proof_rejected);
-	for (e, n) in &t.honest_ok {
-		run.count(&format!("partA_honest_accepted[{}]", e), *n);
-	}
-	for (e, n) in &t.valid_mutant_ok {
-		run.count(&format!("partA_valid_mutant_accepted[{}]", e), *n);
-	}
-	for (v, n) in &t.eras_seen {
-		run.count(&format!("partA_heights_in_era_v{}", v), *n);
-	}
-	let mut rej = serde_json::Map::new();
-	for ((f, e), n) in &t.rejected {
-		rej.insert(format!("{} @ {}", f, e), json!(n));
-	}
-	run.extra("partA_rejected_by_field_and_entry", Value::Object(rej));
-	run.extra("partA_rejected_for_another_reason_detail", json!(t.other_reason));
-	run.extra(
-		"partA_network_difficulties_seen",
-		json!(t.difficulties_seen.iter().map(|(k, v)| (k.to_string(), *v)).collect::<BTreeMap<_, _>>()),
-	);
+	// (part A tallies arrive as counters merged from the workers)
+	let cnt = |name: &str| run.counter(name);
 	run.extra("wall_partA_s", json!(a_wall));
 	run.extra("wall_partB_s", json!(b_wall));
 
 	// requirements part A
-	let fields = [
-		"height", "timestamp", "version", "prev_hash", "prev_root", "total_difficulty",
-		"secondary_scaling", "nonce", "edge_bits", "proof", "output_mmr_size", "kernel_mmr_size",
-	];
 	let entries = [Entry::Pbh, Entry::Sync1, Entry::SyncBatch, Entry::Pb];
 	let mut covered = 0u64;
 	let mut missing: Vec<String> = vec![];
-	for f in fields {
+	for f in FIELDS {
 		for e in entries {
-			if t.rejected.get(&(f.to_string(), e.name())).copied().unwrap_or(0) >= 1 {
+			if cnt(&rejected_key(f, e.name())) >= 1 {
 				covered += 1;
 			} else {
 				missing.push(format!("{}@{}", f, e.name()));
@@ -2043,54 +2064,65 @@ fn main() {
 	if !missing.is_empty() {
 		run.extra("partA_field_entry_pairs_never_rejected", json!(missing));
 	}
-	run.require("partA (field x entry point) pairs with >=1 rejection", covered, (fields.len() * entries.len()) as u64);
+	run.require("partA (field x entry point) pairs with >=1 rejection", covered, (FIELDS.len() * entries.len()) as u64);
 	let reader_fields = ["version", "edge_bits", "nonce", "proof", "timestamp"];
 	let rcov = reader_fields
 		.iter()
-		.filter(|f| t.rejected.get(&(f.to_string(), Entry::Reader.name())).copied().unwrap_or(0) >= 1)
+		.filter(|f| cnt(&rejected_key(f, Entry::Reader.name())) >= 1)
 		.count() as u64;
 	run.require("partA untrusted-reader fields with >=1 rejection", rcov, reader_fields.len() as u64);
-	let min_honest = if san { 10 } else { run.tier.pick(60, 300) };
+	let min_honest = if san { 10 } else { run.tier.pick(100, 1000) };
 	for e in [Entry::Pbh, Entry::Sync1, Entry::Pb, Entry::Reader] {
 		run.require(
 			&format!("partA honest headers accepted via {}", e.name()),
-			t.honest_ok.get(e.name()).copied().unwrap_or(0),
+			cnt(&format!("partA_honest_accepted[{}]", e.name())),
 			min_honest,
 		);
 	}
 	run.require(
 		"partA honest batches accepted via sync_block_headers[k/n]",
-		t.honest_ok.get(Entry::SyncBatch.name()).copied().unwrap_or(0),
-		if san { 2 } else { run.tier.pick(12, 60) },
+		cnt(&format!("partA_honest_accepted[{}]", Entry::SyncBatch.name())),
+		if san { 2 } else { run.tier.pick(25, 250) },
 	);
 	for e in [Entry::Pbh, Entry::Sync1, Entry::Pb] {
 		run.require(
 			&format!("partA rule-abiding mutants accepted via {}", e.name()),
-			t.valid_mutant_ok.get(e.name()).copied().unwrap_or(0),
+			cnt(&format!("partA_valid_mutant_accepted[{}]", e.name())),
 			if san { 3 } else { 30 },
 		);
 	}
 	for v in 1..=5u16 {
 		run.require(
 			&format!("partA heights exercised in header-version era v{}", v),
-			t.eras_seen.get(&v).copied().unwrap_or(0),
+			cnt(&format!("partA_heights_in_era_v{}", v)),
 			1,
 		);
 	}
-	run.require("partA honest headers whose difficulty equals the reference", t.ref_difficulty_ok, min_honest);
-	run.require("partA distinct network difficulties on the honest chains", t.difficulties_seen.len() as u64, 3);
+	run.require(
+		"partA honest headers whose difficulty equals the reference",
+		cnt("partA_honest_difficulty_equals_reference"),
+		min_honest,
+	);
+	let distinct_difficulties = (1..=4096u64)
+		.filter(|d| cnt(&format!("partA_network_difficulty_seen[{:04}]", d)) > 0)
+		.count() as u64;
+	run.require("partA distinct network difficulties on the honest chains", distinct_difficulties, 3);
 	// the mutants must isolate the targeted rule: at least 95% rejected for exactly that rule
-	let other: u64 = t.other_reason.values().sum();
+	let expected = cnt("partA_rejected_for_the_targeted_rule");
+	let other = cnt("partA_rejected_for_another_reason");
 	run.require(
 		"partA rejections for the targeted rule (per mille of all rejections)",
-		if t.expected_reason + other == 0 { 0 } else { t.expected_reason * 1000 / (t.expected_reason + other) },
+		if expected + other == 0 { 0 } else { expected * 1000 / (expected + other) },
 		950,
 	);
 	if !san {
-		run.require("partA far-future (FTL) reader cases judged", t.ftl_judged, 4);
-		run.require("partA valid cycles below the network difficulty rejected", t.weak_proof_rejected, 4);
+		run.require("partA far-future (FTL) reader cases judged", cnt("partA_ftl_cases_judged"), 4);
+		run.require(
+			"partA valid cycles below the network difficulty rejected",
+			cnt("partA_valid_cycle_below_target_rejected"),
+			4,
+		);
 	}
-	drop(t);
 
 	// part B merge
 	let mut cases = 0u64;
@@ -2156,6 +2188,5 @@ fn main() {
 	run.sample(json!({"part":"A","example":"secondary_scaling+1 re-mined at height 13 (version 5)","expected":"accepted and stored (scaling is free after the last hard fork)"}));
 	run.sample(json!({"part":"A","example":"timestamp = now + FTL + 2 s re-mined, serialized, read as UntrustedBlockHeader","expected":"Err"}));
 
-	drop(sc);
 	run.finish();
 }
